@@ -349,6 +349,25 @@ detach(struct bitstream bs)
 }
 
 
+/* Dispose of a retrieve job that will never complete.  If the job is
+   speculative, its unord block is shared with the parser: whoever comes
+   second releases it. */
+static void
+discard(struct retr_blk *rb)
+{
+  if (rb->unord_link != NULL) {
+    if (rb->unord_link->complete)
+      free(rb->unord_link);     /* parser is already done with it */
+    else
+      rb->unord_link->complete = true;  /* parser will release it */
+  }
+
+  decoder_free(&rb->ds);
+  free(rb);
+  work_units++;
+}
+
+
 /* Release any input blocks that are behind current base position. */
 static void
 advance(struct detached_bitstream bs)
@@ -377,9 +396,7 @@ advance(struct detached_bitstream bs)
     Trace(("Advanced over miss-recognized bit pattern at {%u}",
            nbsx2(rb->base)));
 
-    decoder_free(&rb->ds);
-    free(rb);
-    work_units++;
+    discard(rb);
   }
 
   /* Release scan jobs. */
@@ -465,9 +482,7 @@ do_parse(void)
       Trace(("Parser discovered a bit pattern beyond EOF at {%u}",
              nbsx2(rb->base)));
 
-      decoder_free(&rb->ds);
-      free(rb);
-      work_units++;
+      discard(rb);
     }
 
     /* Release scan jobs. */
@@ -579,9 +594,7 @@ do_retrieve(void)
   rb->curr_pos = detach(true_bitstream);
 
   if (parsing_done) {
-    decoder_free(&rb->ds);
-    free(rb);
-    work_units++;
+    discard(rb);
     check_invariants();
     return;
   }
@@ -592,9 +605,7 @@ do_retrieve(void)
        legitimate. Continuing would be pointless, so release resources and
        abort this retrieve job. */
     Trace(("Retriever found himself redundand"));
-    work_units++;
-    decoder_free(&rb->ds);
-    free(rb);
+    discard(rb);
     check_invariants();
     return;
   }
@@ -609,6 +620,14 @@ do_retrieve(void)
   }
 
   if (rv == MORE) {
+    if (rb->curr_pos.offset < head_offs) {
+      /* A speculative job was overtaken by the master and the input it would
+         continue from has been released -- it can't be legitimate. */
+      Trace(("Retriever was overtaken"));
+      discard(rb);
+      check_invariants();
+      return;
+    }
     Trace(("Retriever blocked waiting for input"));
     enqueue(retr_q, rb);
     check_invariants();
